@@ -35,7 +35,11 @@ pub fn from_std_in<R: Read>(stdin: R) -> Reader<R> {
 pub fn from_string(source: &String) -> Reader<&[u8]> {
     let reader = source.as_bytes();
     let mut name = source.clone();
-    name.truncate(32);
+    let mut end = name.len().min(32);
+    while !name.is_char_boundary(end) {
+        end -= 1;
+    }
+    name.truncate(end);
     Reader::new(reader, Some(name))
 }
 
